@@ -397,6 +397,17 @@ class AsyncInotifyWrapper:
                             self.inotify.rm_watch(watch)
                         self.watches[path] = None
                         self.change_queue.put_nowait((Change.DELETED_PARENT, path))
+                    # The watches of the directories below it go with it.
+                    # After a move they follow their inodes to the new location,
+                    # where they keep reporting events under the old paths,
+                    # and they keep a directory that is created again under the old path
+                    # from getting a watch of its own.
+                    prefix = path / ""
+                    for sub_path, sub_watch in list(self.watches.items()):
+                        if sub_watch is not None and sub_path.startswith(prefix):
+                            with contextlib.suppress(OSError):
+                                self.inotify.rm_watch(sub_watch)
+                            self.watches[sub_path] = None
                 else:
                     paths = [path]
                     while len(paths) > 0:
